@@ -1,4 +1,5 @@
 import Dbg.Model.Graph
+import Dbg.Model.ExtsOps
 /-! String-level models of the GFA / JSON exports (graph.rs 538-695, 1057-1092, with the repairs of D5 and D6)
     and of `NodeKmerIter` (graph.rs 880-1006, with the repair of D3). -/
 namespace Export
@@ -50,6 +51,50 @@ def nodeToGfaTags (g : G D) (tagf : Nat → Node D → String) (id : Nat) : Opti
 /-- `to_gfa_with_tags` (the text written to the file) -/
 def writeGfaTags (g : G D) (tagf : Nat → Node D → String) : Option String :=
   ((List.range g.nodes.length).mapM (nodeToGfaTags g tagf)).map fun ls => "H\tVN:Z:debruijn-rs\n" ++ String.join ls
+
+/-! #### the dot export and `Debug` of a node (graph.rs 493-536, 1113-1130) -/
+
+/-- an arrow line `n<src> -> n<dst> [color=…]`; blue = the edge arrives on a left side, red = on a right side -/
+structure DotArrow where
+  src : Nat
+  dst : Nat
+  color : Dir
+deriving Repr, DecidableEq
+
+/-- arrows written under node `id`: one per left edge, pointing at `id`; one per right edge, leaving `id` -/
+def nodeArrows (g : G D) (id : Nat) : Option (List DotArrow) :=
+  match findEdges g id .L, findEdges g id .R with
+  | some le, some re => some (le.map (fun e => ⟨e.1, id, e.2.1⟩) ++ re.map (fun e => ⟨id, e.1, e.2.1⟩))
+  | _, _ => none
+
+def renderArrow (a : DotArrow) : String :=
+  "n" ++ toString a.src ++ " -> n" ++ toString a.dst ++ " [color=" ++ (match a.color with | .L => "blue" | .R => "red") ++ "]\n"
+
+/-- `node_to_dot` -/
+def nodeToDot (g : G D) (label : D → String) (id : Nat) : Option String :=
+  match g.nodes[id]?, nodeArrows g id with
+  | some nd, some as =>
+    some ("n" ++ toString id ++ " [label=\"id:" ++ toString id ++ " len:" ++ toString nd.seq.length ++ "  " ++ label nd.data ++
+      "\",style=filled]\n" ++ String.join (as.map renderArrow))
+  | _, _ => none
+
+/-- `to_dot` (the text written to the file) -/
+def toDot (g : G D) (label : D → String) : Option String :=
+  ((List.range g.nodes.length).mapM (nodeToDot g label)).map fun ls => "digraph {\n" ++ String.join ls ++ "}\n"
+
+def edgeDebug (e : Nat × Dir × Bool) : String :=
+  "(" ++ toString e.1 ++ ", " ++ (match e.2.1 with | .L => "Left" | .R => "Right") ++ ", " ++ (if e.2.2 then "true" else "false") ++ ")"
+
+/-- `Debug` of a `SmallVec` of edges: a list in square brackets -/
+def edgesDebug (es : List (Nat × Dir × Bool)) : String := "[" ++ ", ".intercalate (es.map edgeDebug) ++ "]"
+
+/-- `Debug for Node`: id, extension byte, both edge lists, the *length* of the sequence, the payload -/
+def nodeDebug (g : G D) (dataDebug : D → String) (id : Nat) : Option String :=
+  match g.nodes[id]?, findEdges g id .L, findEdges g id .R with
+  | some nd, some le, some re =>
+    some ("Node { id:" ++ toString id ++ ", Exts: " ++ String.ofList (nd.exts.debug.map Char.ofNat) ++ ", L:" ++ edgesDebug le ++
+      " R:" ++ edgesDebug re ++ ", Seq: " ++ toString nd.seq.length ++ ", Data: " ++ dataDebug nd.data ++ " }")
+  | _, _, _ => none
 
 /-- `Debug` of the node's slice inside the packed sequence set (summary form from 256 bases on) -/
 def sliceDebug (start : Nat) (s : Seq) : String :=
